@@ -113,7 +113,9 @@
         // 5. near-miss malformed numerals are refused, never joined into a wrong value
         for t in ["1.", ".5", "1..5", "1.5.2", "1,00", "1,0000", "1,,000", "十百", "億万", "1.5千5百", "1.5千500", "三百二十百", "万", "1万万", "1千万億1万億", "一十十", "2百3千",
                   // a point that is followed by a unit instead of a digit is dangling
-                  "1.万", "3.千", "二.百万", "12.十", "2千5.百", "1.億2万", "5.", "5.万3", "1,.5", "1.,5", "1,000.", "1,000.万"] {
+                  "1.万", "3.千", "二.百万", "12.十", "2千5.百", "1.億2万", "5.", "5.万3", "1,.5", "1.,5", "1,000.", "1,000.万",
+                  // a thousands separator cannot follow the decimal point of the same digit run (found 2026-09-30: F22)
+                  "1.2,345", "1.23,456", "12.3,456", "1.234,567", "1,234.5,678", "0.5,000", "1.0,000", "3万1.5,000", "1.5,000万"] {
             check(t.to_string(), None, &mut failures);
         }
         println!("verif_oracle_numerals_render_their_value: {} cases, {} failures", cases, failures.len());
